@@ -38,19 +38,19 @@ fn engine_for(prop: &str) -> Box<dyn Engine> {
         "C04" => Box::new(qeng::QueryEngine {
             prop: "C04",
             suite: qeng::c04_suite,
-            rule: "every query SELECT <0..2 (thorough: 3) grouping expressions>, <aggregate set> FROM t [WHERE f] for grouping expressions over {small int, nullable int, string, nullable string, float, wide-range int (hash grouping), v % 3, absent column} x 8 aggregate sets of COUNT/SUM/MIN/MAX/AVG over int, nullable int, float, nullable float x 5 filters (none, selective, on NULL, none match, string equality) x 8 physical layouts (1-3 partitions with differing encodings, missing columns, open buffer, cold restart); result rows compared as a multiset with the reference group-by (NULL is its own group, aggregates ignore NULL inputs, float sums with relative tolerance 1e-9). Non-trivial: the reference has at least two groups; distinct by query text.",
-            assumptions: &["integer AVG compared as truncated SUM/COUNT (what the engine defines AVG to be)", "queries the engine declines with TypeError / NotImplemented are counted, not judged", "12-row table: group cardinalities above 65 536 are not covered"],
+            rule: "every query SELECT <0..2 (thorough: 3) grouping expressions>, <aggregate set> FROM t [WHERE f] for grouping expressions over {small int, nullable int, string, nullable string, float, wide-range int (hash grouping), v % 3, absent column} x 8 aggregate sets of COUNT/SUM/MIN/MAX/AVG over int, nullable int, float, nullable float x 5 filters (none, selective, on NULL, none match, string equality) x 8 physical layouts (1-3 partitions with differing encodings, missing columns, open buffer, cold restart); plus table r whose 12 key columns have value ranges at the planner's boundaries (8 / 9 / 16 / 17 / 32 / 33 / 63 bits, offset subtraction, negative minimum, nullable with maximum 255, range wider than i64): every single key, every ordered pair, 8 triples whose packed width crosses 16 / 63 bits x 2 aggregate sets x 2 filters x 8 layouts; result rows compared as a multiset with the reference group-by (NULL is its own group, aggregates ignore NULL inputs, float sums with relative tolerance 1e-9). Non-trivial: the reference has at least two groups; distinct by query text.",
+            assumptions: &["integer AVG compared as truncated SUM/COUNT (what the engine defines AVG to be)", "queries the engine declines with TypeError / NotImplemented are counted, not judged", "12-row tables: the *number* of groups stays small; the planner's 65 536 threshold is a bound on the packed key value and is crossed by the value ranges of table r"],
         }),
         "C05" => Box::new(qeng::QueryEngine {
             prop: "C05",
             suite: qeng::c05_suite,
-            rule: "every query SELECT id, keys.. FROM t ORDER BY keys [LIMIT l] [OFFSET o] for all single keys over {int, nullable int, float, nullable float, string, nullable string, i+ni, absent column} x ASC/DESC x every (l, o) in [0, n+2]^2, a covering set of two-key lists (every ordered pair of base columns) and two three-key lists with representative windows, plus queries without ORDER BY (ingestion order) with and without a filter, on 4 physical layouts; oracle: the sequence of returned key tuples equals the reference sorted[o..o+l] (NULL last ascending, first descending; ties in any order), every returned row is a distinct row of the filtered table, length = min(l, max(0, N-o)). Non-trivial: window neither empty nor the whole table; distinct by query text.",
+            rule: "every query SELECT id, keys.. FROM t ORDER BY keys [LIMIT l] [OFFSET o] for all single keys over {int, nullable int, float, nullable float, string, nullable string, i+ni, absent column, u32-range int (compressed section), full-width i64, nullable full-width i64} x ASC/DESC x every (l, o) in [0, n+2]^2, a covering set of two-key lists (every ordered pair of base columns) and two three-key lists with representative windows, plus queries without ORDER BY (ingestion order) with and without a filter, on 4 physical layouts; oracle: the sequence of returned key tuples equals the reference sorted[o..o+l] (NULL last ascending, first descending; ties in any order), every returned row is a distinct row of the filtered table, length = min(l, max(0, N-o)). Non-trivial: window neither empty nor the whole table; distinct by query text.",
             assumptions: &["n = 10 rows (thorough adds n = 24)", "queries the engine declines with TypeError / NotImplemented are counted, not judged"],
         }),
         "C06" => Box::new(qeng::QueryEngine {
             prop: "C06",
             suite: qeng::c06_suite,
-            rule: "every expression tree of depth 1 over {+,-,*,/,%} with leaves = 9 integer columns at the edges of u8/u8+offset/u16/u32/i64 (two nullable; one holding i64::MIN itself) and 10 constants, depth 2 over a reduced leaf set, unary minus; each as a projection, and depth-1 expressions also as aggregate argument and filter operand; SUM / AVG / expressions over SUM for 6 value multisets (overflow inside a partition, only when merging, only in a prefix, cancellation, negative) x all splits of 6 rows into <= 3 partitions x grouped / ungrouped; oracle: i128 reference arithmetic - if every row fits the cells must be equal, if any non-NULL row overflows or divides by zero the call must return Err(Overflow), NULL operand gives NULL. Non-trivial: query returns rows or the overflow error; distinct by query text.",
+            rule: "every expression tree of depth 1 over {+,-,*,/,%} with leaves = 9 integer columns at the edges of u8/u8+offset/u16/u32/i64 (two nullable; one holding i64::MIN itself) and 10 constants, depth 2 over a reduced leaf set, depth 3 (balanced; thorough also left-deep) over 3 columns x 6 leaves x 3 columns x 4 leaves, unary minus; each as a projection, and depth-1 expressions also as aggregate argument and filter operand; SUM / AVG / expressions over SUM for 6 value multisets (overflow inside a partition, only when merging, only in a prefix, cancellation, negative) x all splits of 6 rows into <= 3 partitions x grouped / ungrouped; oracle: i128 reference arithmetic - if every row fits the cells must be equal, if any non-NULL row overflows or divides by zero the call must return Err(Overflow), NULL operand gives NULL. Non-trivial: query returns rows or the overflow error; distinct by query text.",
             assumptions: &["a SUM whose total fits but which overflows for some summation order may also report Overflow", "queries the engine declines with TypeError / NotImplemented are counted, not judged"],
         }),
         _ => {
